@@ -164,12 +164,19 @@ func navigatorApp() *app.App {
 func c04History(mode string, inputs []string, visit func(*ref.Nav)) (sig, msg string, steps int) {
 	a := navigatorApp()
 	var s *app.Session
+	// mode = long-lived | persisted, optionally +flush (Persister.WithFlush) and/or +reset
+	// (engine.Config.ResetOnEmptyInput: an empty input restarts the session at the entry node)
+	reset := strings.Contains(mode, "+reset")
+	flush := strings.Contains(mode, "+flush")
+	a.First = strings.Contains(mode, "+first") // engine.WithFirst with a function that does nothing
+	mode = strings.SplitN(mode, "+", 2)[0]
 	if mode == "long-lived" {
-		s = app.NewSession(a, engine.Config{}, app.LongLived)
+		s = app.NewSession(a, engine.Config{ResetOnEmptyInput: reset}, app.LongLived)
 	} else {
-		s = app.NewSession(a, engine.Config{SessionId: "s1"}, app.Persisted)
+		s = app.NewSession(a, engine.Config{SessionId: "s1", ResetOnEmptyInput: reset}, app.Persisted)
 		s.Open = app.MemStore()
 		s.FinishOnError = true
+		s.Flush = flush
 	}
 	m := &ref.Nav{}
 	r := s.Request([]byte(""))
@@ -199,7 +206,11 @@ func c04History(mode string, inputs []string, visit func(*ref.Nav)) (sig, msg st
 		} else if offered && target == m.Top() {
 			offered = false
 		}
-		if offered {
+		if reset && in == "" {
+			*m = ref.Nav{}
+			m.Move("root")
+			res, idxFree = ref.NavOK, false
+		} else if offered {
 			res, idxFree = m.Move(target)
 			if res == ref.NavFail {
 				m.Move("_catch")
@@ -341,9 +352,17 @@ func c04Run(c *mc.Ctx) {
 	}
 	// part B
 	a := navigatorApp()
-	for _, mode := range []string{"long-lived", "persisted"} {
-		for _, i0 := range a.Inputs {
-			for _, i1 := range a.Inputs {
+	for _, mode := range []string{"long-lived", "persisted", "persisted+flush", "persisted+first", "long-lived+reset", "persisted+reset"} {
+		inputs := a.Inputs
+		hdepth := hdepth
+		if strings.Contains(mode, "+reset") {
+			inputs = append(append([]string{}, inputs...), "")
+		}
+		if strings.Contains(mode, "+") && c.Thorough() {
+			hdepth--
+		}
+		for _, i0 := range inputs {
+			for _, i1 := range inputs {
 				if !c.Mine() {
 					continue
 				}
@@ -360,7 +379,7 @@ func c04Run(c *mc.Ctx) {
 						}
 						return
 					}
-					for _, in := range a.Inputs {
+					for _, in := range inputs {
 						hist = append(hist, in)
 						rec()
 						hist = hist[:len(hist)-1]
